@@ -1257,7 +1257,7 @@ func (r *replicateChannelHandler) getTSManagerChannelKey(channelName string) str
 func (r *replicateChannelHandler) innerHandleReplicateMsg(forward bool, msg *api.ReplicateMsg) {
 	msgPack := msg.MsgPack
 	defer verifYield("done", msgPack)
-	p := r.handlePack(forward, msgPack, msg.TaskID)
+	p, ticket := r.handlePack(forward, msgPack, msg.TaskID)
 	// nil means the pack can't be handled, the error event has been sent
 	if p == nil || p == api.EmptyMsgPack {
 		return
@@ -1267,7 +1267,7 @@ func (r *replicateChannelHandler) innerHandleReplicateMsg(forward bool, msg *api
 	p.PChannelName = msg.PChannelName
 	p.TaskID = msg.TaskID
 	verifYield("send", msgPack)
-	GetTSManager().SendTargetMsg(r.getTSManagerChannelKey(r.targetPChannel), p)
+	GetTSManager().SendTargetMsg(r.getTSManagerChannelKey(r.targetPChannel), ticket, p)
 }
 
 func (r *replicateChannelHandler) collectionSourceSeekPosition(
@@ -1448,7 +1448,8 @@ func isSupportedMsgType(msgType commonpb.MsgType) bool {
 		msgType == commonpb.MsgType_Import
 }
 
-func (r *replicateChannelHandler) handlePack(forward bool, pack *msgstream.MsgPack, taskID string) *api.ReplicateMsg {
+// handlePack returns the pack for the target channel and its send ticket (see tsManager.SendTargetMsg)
+func (r *replicateChannelHandler) handlePack(forward bool, pack *msgstream.MsgPack, taskID string) (*api.ReplicateMsg, uint64) {
 	sort.Slice(pack.Msgs, func(i, j int) bool {
 		return pack.Msgs[i].BeginTs() < pack.Msgs[j].BeginTs() ||
 			(pack.Msgs[i].BeginTs() == pack.Msgs[j].BeginTs() && pack.Msgs[i].Type() == commonpb.MsgType_Delete)
@@ -1560,7 +1561,7 @@ func (r *replicateChannelHandler) handlePack(forward bool, pack *msgstream.MsgPa
 		if err != nil {
 			r.sendErrEvent(taskID, err)
 			log.Warn("fail to get collection info", zap.Int64("collection_id", sourceCollectionID), zap.Error(err))
-			return nil
+			return nil, 0
 		}
 		if info == nil {
 			log.Info("collection has been dropped in the source and target", zap.Int64("collection_id", sourceCollectionID))
@@ -1699,7 +1700,7 @@ func (r *replicateChannelHandler) handlePack(forward bool, pack *msgstream.MsgPa
 		if err != nil {
 			r.sendErrEvent(taskID, err)
 			log.Warn("fail to process the msg info", zap.Any("msg", msg.Type()), zap.Error(err))
-			return nil
+			return nil, 0
 		}
 		originPosition := msg.Position()
 		originPositionPChannel := funcutil.ToPhysicalChannel(originPosition.GetChannelName())
@@ -1742,7 +1743,7 @@ func (r *replicateChannelHandler) handlePack(forward bool, pack *msgstream.MsgPa
 
 	if forwardChannel != "" {
 		r.forwardMsgFunc(forwardChannel, api.GetReplicateMsg(streamPChannel, sourceCollectionName, sourceCollectionID, newPack, taskID))
-		return api.EmptyMsgPack
+		return api.EmptyMsgPack, 0
 	}
 
 	for _, position := range newPack.StartPositions {
@@ -1767,14 +1768,14 @@ func (r *replicateChannelHandler) handlePack(forward bool, pack *msgstream.MsgPa
 	needTsMsg = needTsMsg || len(newPack.Msgs) != 0 || GetTSManager().UnsafeShouldSendTSMsg(tsManagerChannelKey)
 
 	if !needTsMsg {
-		return api.EmptyMsgPack
+		return api.EmptyMsgPack, 0
 	}
 
 	generateTS, ok := GetTSManager().UnsafeGetMaxTS(tsManagerChannelKey)
 	if !ok {
 		log.Warn("not found the max ts", zap.String("channel", r.targetPChannel))
 		r.sendErrEvent(taskID, fmt.Errorf("not found the max ts"))
-		return nil
+		return nil, 0
 	}
 	GetTSManager().UnsafeUpdatePackTS(tsManagerChannelKey, newPack.BeginTs, func(newTS uint64) (uint64, bool) {
 		reset := resetMsgPackTimestamp(newPack, newTS)
@@ -1836,7 +1837,8 @@ func (r *replicateChannelHandler) handlePack(forward bool, pack *msgstream.MsgPa
 	msgTime, _ := tsoutil.ParseHybridTs(generateTS)
 	TSMetricVec.WithLabelValues(r.targetPChannel).Set(float64(msgTime))
 	r.ttRateLog.Debug("time tick msg", zap.String("channel", r.targetPChannel), zap.Uint64("max_ts", generateTS))
-	return api.GetReplicateMsg("", sourceCollectionName, sourceCollectionID, newPack, "")
+	// the ticket is drawn under the channel lock: the packs reach the target channel in the order of their ticks
+	return api.GetReplicateMsg("", sourceCollectionName, sourceCollectionID, newPack, ""), GetTSManager().UnsafeNextSendTicket(tsManagerChannelKey)
 }
 
 func resetMsgPackTimestamp(pack *msgstream.MsgPack, newTimestamp uint64) bool {
